@@ -41,12 +41,19 @@ def consumer_call(body, local, bb):
     return None
 
 
-def field_touches(prog, adt, fields, bodies=None, include_derived=False):
-    """all mutable touches of adt.fields in the given bodies (default: whole program)"""
+def is_test_body(b):
+    """unit tests inside the owner module, integration tests, examples and benches: not shipped code (they may poke private fields)"""
+    return "::tests::" in b.key or b.unit.endswith("__test") or "/tests/" in b.file or "/examples/" in b.file or "/benches/" in b.file
+
+
+def field_touches(prog, adt, fields, bodies=None, include_derived=False, include_tests=False):
+    """all mutable touches of adt.fields in the given bodies (default: whole program, without test code)"""
     out = []
     fields = set(fields)
     for b in (bodies if bodies is not None else prog.bodies.values()):
         if b.derived and not include_derived:
+            continue
+        if not include_tests and is_test_body(b):
             continue
         for bb, i, pl, rv, s in b.assigns():
             f, idx = _field_in_place(pl, adt, fields)
